@@ -39,10 +39,13 @@ class Evaluator:
         self.corner = corner
         self.salt = salt
 
+    pool8 = ()
+
     def byte_uf(self, kind, args):
         h = zlib.crc32(repr((kind, args, self.salt)).encode())
         if self.corner:
-            return CORNERS[h % len(CORNERS)]
+            pool = CORNERS + self.pool8
+            return pool[h % len(pool)]
         return h & 0xFF
 
     def ev(self, t):
@@ -226,18 +229,62 @@ def _effects(e, ev):
     rv = ev.ev(ret) if isinstance(ret, tuple) else ret
     return r, m, tuple(x), rv
 
+def _constants(items):
+    cs = set()
+    eqs = []
+    def visit(t):
+        for x in walk(t):
+            if x[0] == 'c' and 0 <= x[1] < 65536:
+                cs.add(x[1])
+            elif x[0] in ('==', '!=') and x[1][0] in ('reg', 'sym') and not isc(x[2]):
+                eqs.append((x[1], x[2]))
+            elif x[0] in ('==', '!=') and x[2][0] in ('reg', 'sym') and not isc(x[1]):
+                eqs.append((x[2], x[1]))
+    for g, e in items:
+        for x in g: visit(x)
+        for k, v in e[0]: visit(v)
+        for a_, v in e[1]: visit(a_); visit(v)
+    return cs, eqs
+
 def find_witness(a, b, samples=1200, seed=1):
     """-> None or dict(valuation=..., a=effects, b=effects, note=...)"""
     ra, sa_ = free_atoms(a)
     rb, sb = free_atoms(b)
     regs, syms = ra | rb, sa_ | sb
+    ca, ea = _constants(a)
+    cb, eb_ = _constants(b)
+    consts = ca | cb
+    eqs = ea + eb_
+    pool8 = tuple(sorted({v for c in consts for v in (c - 1, c, c + 1) if 0 <= v < 256}))
+    pool16 = tuple(sorted({v for c in consts for v in (c - 1, c, c + 1) if 0 <= v < 65536}))
+    rnd = random.Random(seed + 99)
     for n, val in enumerate(sample_valuations(regs, syms, samples, seed)):
         # make sure every changed register has an entry value to compare against
         for items in (a, b):
             for g, e in items:
                 for k, v in e[0]:
                     val.setdefault(('reg', k), 0)
-        ev = Evaluator(val, corner=(n % 3 == 0), salt=n)
+        if pool16 and n % 2 == 0:
+            # steer some free atoms to constants that occur in the code being compared
+            for k_ in list(val):
+                if rnd.random() < 0.25:
+                    if k_[0] == 'sym' and k_[1] not in SYM_SAMPLES and not k_[1].endswith('_tracer'):
+                        val[k_] = rnd.choice(pool16)
+                    elif k_[0] == 'reg' and k_[1] in (12, 24, 29):
+                        val[k_] = rnd.choice(pool16)
+                    elif k_[0] == 'reg' and k_[1] not in (25, 26, 27, 28, 13) and pool8:
+                        val[k_] = rnd.choice(pool8)
+        ev = Evaluator(val, corner=(n % 3 != 1), salt=n)
+        ev.pool8 = pool8
+        if eqs and n % 2 == 1:
+            # steer towards equalities between a free atom and an expression (x == f(...))
+            try:
+                for x_, t_ in eqs:
+                    if rnd.random() < 0.6:
+                        val[x_] = ev.ev(t_)
+                        ev.memo.clear()
+            except (Undef, KeyError, TypeError):
+                pass
         try:
             ha = _active(a, ev)
             hb = _active(b, ev)
